@@ -1,0 +1,20 @@
+//go:build verif
+
+package debug
+
+import "github.com/goghcrow/yae/val"
+
+// VerifEntry is a read-only copy of one recorded (value, column) pair.
+type VerifEntry struct {
+	V   *val.Val
+	Col int
+}
+
+// VerifEntries returns a copy of the record's entries in recording order.
+func (r *Record) VerifEntries() []VerifEntry {
+	out := make([]VerifEntry, len(r.vs))
+	for i, e := range r.vs {
+		out[i] = VerifEntry{e.v, e.col}
+	}
+	return out
+}
